@@ -124,7 +124,7 @@ int backup_copy_file(const char *filename, const vector<UINT8> &data)
 } // backup_copy_file
 
 
-void backup_create_md5_file(const char *filename)
+void backup_create_md5_file(const char *filename, const char *content_filename)
 {
    UINT8  dig[16];
    MD5    md5;
@@ -135,12 +135,12 @@ void backup_create_md5_file(const char *filename)
 
    md5.Init();
 
-   thefile = fopen(filename, "rb");
+   thefile = fopen(content_filename, "rb");
 
    if (thefile == nullptr)
    {
       LOG_FMT(LERR, "%s: fopen(%s) failed: %s (%d)\n",
-              __func__, filename, strerror(errno), errno);
+              __func__, content_filename, strerror(errno), errno);
       exit(EX_SOFTWARE);
    }
 
